@@ -219,7 +219,8 @@ def oracle_even_template_rotations(ck, rng):
         t = np.zeros((n, n, n), np.float32)
         t[1:n - 2, 2:n - 3, n // 2:n // 2 + 2] = 1; t[n // 2, 1:n - 1, 2] = 2; t[n - 3, n - 3, 1:n - 1] = 1.5; t[1, 1, 1] = 2.5     # chiral
         t = ndi.gaussian_filter(t, 0.5)
-        rots = Rotation.from_euler("z", [[0], [90], [180], [-90]], degrees=True)
+        # the same four rotations, one of them written with an angle beyond 180 degrees (quaternion with a negative scalar part)
+        rots = Rotation.from_euler("z", [[0], [90], [180], [270 if it % 2 == 0 else -90]], degrees=True)
         N = (20, 64, 64)
         big = np.zeros(N, np.float32)
         truth = []
@@ -251,6 +252,52 @@ def oracle_even_template_rotations(ck, rng):
                 ck.violation(what=f"ZNCC matcher, {n}^3 template, 4 searched rotations, chunks {ch}: {detail.strip('; ')}", inp=c,
                              key={"site": "matcher-rotations", "even_template": n % 2 == 0, "chunked": tuple(ch) != tuple(N)}, oracle="rotated_template_positions",
                              measured=detail)
+
+
+def oracle_one_pick_per_particle(ck, rng):
+    """one molecule per particle, also when the peak is shared by two voxels that are neighbours along any axis (z included) and when
+    the exclusion radius is below one voxel (coarse voxels with the default min_distance)"""
+    import dask.array as da
+    from acryo.pick import LoGPicker, DoGPicker, ZNCCTemplateMatcher
+    N = (48, 48, 48)
+    for it in range(1 if ck.tier == "quick" else 4):
+        # particles made of one voxel, or of two equal neighbouring voxels (exact ties: flat-topped maxima), away from each other
+        img = np.zeros(N, np.float32)
+        pts = []
+        for j, ax in enumerate((0, 1, 2, 0)):
+            p_ = [[10, 10, 12], [10, 36, 20], [36, 10, 30], [34, 36, 14]][j]
+            q_ = list(p_); q_[ax] += 1
+            img[tuple(p_)] = img[tuple(q_)] = 1.0
+            pts.append(tuple((np.array(p_) + np.array(q_)) / 2))
+        img[24, 24, 40] = 1.0; pts.append((24.0, 24.0, 40.0))
+        for scale in (1.0, 0.5):
+            for P, pname in ((LoGPicker(3.0 * scale), "LoG"), (DoGPicker(2.0 * scale, 3.5 * scale), "DoG")):
+                ck.oracle_count("one_pick_per_particle", 1, 1)
+                mol = P.pick_molecules(da.from_array(img, chunks=N), scale)
+                pos = np.asarray(mol.pos) / scale
+                miss = [p_ for p_ in pts if not len(pos) or np.linalg.norm(pos - np.array(p_), axis=1).min() > 1e-3]
+                if len(pos) != len(pts) or miss:
+                    ck.violation(what=f"{pname} picker (scale {scale}, one chunk): {len(pos)} molecules for {len(pts)} particles with flat-topped peaks along z, y, x; "
+                                      f"not found at their midpoint: {miss}", inp={"particles": [list(p_) for p_ in pts], "scale": scale},
+                                 key={"site": "tied-peaks", "picker": pname}, oracle="one_pick_per_particle")
+        # template matching on coarse voxels: the default min_distance (1 nm) is below one voxel at 1.4 nm / voxel; smooth template = broad peaks
+        zz, yy, xx = np.indices((11, 11, 11), dtype=np.float32)
+        bead = lambda cz, cy, cx: np.exp(-((zz - cz) ** 2 + (yy - cy) ** 2 + (xx - cx) ** 2) / 2.0)
+        t = (bead(5, 5, 5) + bead(5, 5, 8) + 0.8 * bead(5, 8, 5) + 1.3 * bead(8, 5, 3) + bead(2, 3, 5)).astype(np.float32)
+        cen = [(9, 10, 11), (10, 30, 41), (25, 12, 40), (26, 33, 13)]
+        big = np.zeros((36, 44, 54), dtype=np.float32)
+        for cz, cy, cx in cen:
+            big[cz - 5:cz + 6, cy - 5:cy + 6, cx - 5:cx + 6] += t
+        big += rng.normal(scale=0.02, size=big.shape).astype(np.float32)
+        for scale in (1.4, 2.5):
+            ck.oracle_count("one_pick_per_particle", 1, 1)
+            m = ZNCCTemplateMatcher(t).pick_molecules(da.from_array(big, chunks=big.shape), scale, min_score=0.6)
+            pos = np.asarray(m.pos) / scale
+            bad = [c_ for c_ in cen if not len(pos) or int((np.linalg.norm(pos - np.array(c_), axis=1) <= 0.5).sum()) != 1]
+            if len(pos) != len(cen) or bad:
+                ck.violation(what=f"ZNCC matcher at {scale} nm/voxel with the default min_distance: {len(pos)} molecules for {len(cen)} particles; "
+                                  f"not picked exactly once: {bad}", inp={"scale": scale, "particles": [list(c_) for c_ in cen]},
+                             key={"site": "sub-voxel-min-distance"}, oracle="one_pick_per_particle")
 
 
 def oracle_noncubic_matcher(ck, rng):
@@ -304,6 +351,7 @@ def run(ck: common.Check):
     oracle_real(ck, rng)
     oracle_noncubic_matcher(ck, np.random.default_rng(ck.seed + 202020))
     oracle_even_template_rotations(ck, np.random.default_rng(ck.seed + 212121))
+    oracle_one_pick_per_particle(ck, np.random.default_rng(ck.seed + 222222))
 
 
 def replay(data):
